@@ -285,6 +285,8 @@ func attRun(p *attPlan, tcp bool, tcpAddr string) (viol [][2]string, incon bool)
 			f := res.Replies[i]
 			u := b.units[b.ctrlIdx[i]]
 			switch {
+			case f == nil && len(e.Body) > 1023:
+				bad("ranges|0x9212 listing more ranges than fit a 1023-byte body is written as a malformed frame", fmt.Sprintf("file %d: the response needs %d body bytes (%d ranges); the frame on the wire is not decodable: %s", u.File, len(e.Body), (len(e.Body)-4)/8, core.HexCap(res.RawReplies[i], 40)))
 			case f == nil:
 				bad("reply|undecodable reply", fmt.Sprintf("%x", res.RawReplies[i]))
 			case f.ID != e.ID:
